@@ -89,12 +89,26 @@ pub fn c14_c15_pool(m: &mut Mon, ctx: &StepCtx, stats: &mut Stats, out: &mut Vec
                 viol(out, "C19", "holders_accrual_grows_by_delivered", ctx.idx, "hub.UpdateGlobalIndex:over_distribution", msg);
             }
         }
+        // ... and not less: what reached the contract is shared out in full over the tokens
+        // that exist (the holders' actual balances, not the contract's own total), up to the
+        // index's 1e-18 resolution per token and one base unit
+        let held: u128 = pre.holders.iter().map(|h| h.balance.u128()).sum();
+        let grow_actual18 = Uint256::from(delta) * Uint256::from(held);
+        let slack18 = Uint256::from(held) + one256();
+        if grow_actual18 + slack18 < have18 {
+            stats.check("c15_distribution_complete");
+            viol(out, "C15", "accrual_equals_rewards_delivered_per_token", ctx.idx, "reward.UpdateGlobalIndex:under_distribution", format!("{} reward coins reached the contract since the previous distribution, holders own {} bSei (contract total {}), but the index rose by only {}e-18: {}e-18 credited", m.undistributed, held, pre.state.total_balance, delta, grow_actual18));
+        }
         m.undistributed = 0;
         for h in &pre.holders {
             if !h.balance.is_zero() {
                 *m.accr.entry(h.address.clone()).or_insert_with(Uint256::zero) += Uint256::from(delta) * Uint256::from(h.balance.u128());
             }
         }
+    } else if !pre.state.total_balance.is_zero() && ctx.out.map(|o| o.ok && o.calls.iter().any(|c| c.ok && c.is_exec(REWARD, "update_global_index"))).unwrap_or(false) {
+        // an update with holders that could not move the index (reward dust over a large
+        // supply): the contract counts it as distributed
+        m.undistributed = 0;
     }
     // ---- claims
     let is_claim = matches!(ctx.top(), Some((REWARD, "claim_rewards")));
